@@ -231,8 +231,11 @@ class CaseTimeout(BaseException):
     """raised by the per-case watchdog (BaseException: `except Exception` in the code under test must not swallow it)"""
 
 
-CASE_CPU_LIMIT = float(os.environ.get("VERIF_CASE_CPU_LIMIT", "60"))    # CPU seconds of this process for ONE case
-CASE_WALL_LIMIT = float(os.environ.get("VERIF_CASE_WALL_LIMIT", "1500"))  # wall-clock seconds for ONE case
+# limits for ONE item handed to pmap (a case, or a batch of a few dozen cases of a trace leg): CPU seconds of this process
+# (independent of machine load) and wall-clock seconds
+_THOROUGH = os.environ.get("VERIF_TIER") == "thorough" or "thorough" in sys.argv
+CASE_CPU_LIMIT = float(os.environ.get("VERIF_CASE_CPU_LIMIT", "1800" if _THOROUGH else "300"))
+CASE_WALL_LIMIT = float(os.environ.get("VERIF_CASE_WALL_LIMIT", "7200" if _THOROUGH else "3000"))
 
 
 def _guarded_call(sub: "Ctx", fn, it, reraise_internal=False):
@@ -291,6 +294,13 @@ def _guarded_call(sub: "Ctx", fn, it, reraise_internal=False):
 
 def _pmap_worker(args):
     fn, prop, tier, seed, escalated, chunk = args
+    try:
+        # pool workers are daemonic and "daemonic processes are not allowed to have children": the real-process slices
+        # (thorough tier) start real DataLoader workers from inside a case
+        import multiprocessing as _mp
+        _mp.current_process()._config["daemon"] = False
+    except Exception:
+        pass
     sub = Ctx(prop, tier, seed)
     sub.escalated = escalated
     out = []
